@@ -9,8 +9,8 @@ done = set()
 if os.path.exists(resf):
     done = {l.split()[0] for l in open(resf) if l.strip()}
 groups = collections.defaultdict(list)
-for name in sorted(os.listdir("/tmp/seed/out")):
-    d = os.path.join("/tmp/seed/out", name)
+for name in sorted(os.listdir(os.environ.get("SEED_OUT", "/tmp/seed/out"))):
+    d = os.path.join(os.environ.get("SEED_OUT", "/tmp/seed/out"), name)
     if name in done or (only and name not in only and name[:3] not in only): continue
     if not (os.path.exists(os.path.join(d, "patch.diff")) and os.path.exists(os.path.join(d, "meta.json"))): continue
     groups[name[:3]].append(name)
@@ -22,7 +22,7 @@ def worker():
             if not queue: return
             pid, names = queue.pop(0)
         for n in names:
-            p = subprocess.run(["python3", "tools/seed_confirm.py", "/tmp/seed/out/" + n, pid], cwd=ROOT, stdout=subprocess.PIPE, stderr=subprocess.STDOUT, text=True)
+            p = subprocess.run(["python3", "tools/seed_confirm.py", os.path.join(os.environ.get("SEED_OUT", "/tmp/seed/out"), n), pid], cwd=ROOT, stdout=subprocess.PIPE, stderr=subprocess.STDOUT, text=True)
             last = [l for l in p.stdout.strip().split("\n") if l.startswith(n)] or [n + " " + pid + ": ERROR " + p.stdout[-300:].replace("\n", " ")]
             with lock:
                 open(resf, "a").write(last[-1] + "\n")
